@@ -72,7 +72,9 @@ IPv6_PATTERN = re.compile(
     r"|:((:[0-9a-f]{1,4}){1,7}|:)"
     r"|fe80:(:[0-9a-f]{0,4}){0,4}%[0-9a-z]{1,})"
     + r"(?={enclosing}|$)".format(enclosing=_IPv6_ENCLOSING),
-    re.IGNORECASE,
+    # ASCII: case-insensitive matching must not turn non-ASCII characters that fold onto
+    # ASCII letters (e.g. the Kelvin sign, dotted capital I) into "word" characters
+    re.IGNORECASE | re.ASCII,
 )
 
 
